@@ -67,6 +67,13 @@ def run(ctx, info):
                 mm = r.choice(["min", "max"])
                 jobs.append({"opt": nm, "cfg": {"max_cycles": mc, "fitness_error": None},
                              "task": search.cont_task(obj=obj, minmax=mm, seed=r.randint(0, 10**6), dim=r.choice([2, 3]), lo=-5.0, hi=5.0)})
+    # a REUSED instance must be just as elitist (stale "already sorted" flags, caches ... show only from the second run on)
+    trimmers = [n for n in pinned if n in sks and any(k in ("WExtendTrim", "WReplaceTrim", "WGreedyPop") for k, _ in sks[n]["step"])]      # shared sort-and-trim / pooled helpers
+    reuse = [n for n in pinned for _ in range(4 if n in trimmers else 1)] if not ctx.quick else trimmers * 3 + r.sample(pinned, min(len(pinned), 12))
+    for nm in reuse:
+        first = {"task": search.cont_task(obj="sphere", minmax=r.choice(["min", "max"]), seed=r.randint(0, 10**6), dim=3, lo=-5.0, hi=5.0)}
+        jobs.append({"opt": nm, "cfg": {"max_cycles": 12, "fitness_error": None}, "sequence": [first] * r.choice([1, 2]),
+                     "task": search.cont_task(obj=r.choice(["sphere", "rastrigin"]), minmax=r.choice(["min", "max"]), seed=r.randint(0, 10**6), dim=r.choice([2, 3]), lo=-5.0, hi=5.0)})
     # optimizers T-algo cannot classify but which were monotone in every run on the pinned tree: search only, pinned by the hash of their source
     observed = load_expectations().get("elitist_observed", {})
     changed = sorted(n for n, fp in observed.items() if n in sks and sks[n].get("src_fingerprint") != fp)
